@@ -340,8 +340,62 @@ func (g *synthGen) directed(variant int) []*sFV {
 	return out
 }
 
-// synthImage returns a BIOS-region image (size a multiple of 4 KiB) and a description.
-func synthImage(rng *rand.Rand, idx int) ([]byte, string) {
+// outline: the structure in one line, names as short hex prefixes of the GUIDs
+func (s *sSec) outline() string {
+	kids := func() string {
+		o := ""
+		for _, k := range s.kids {
+			o += k.outline() + " "
+		}
+		return o
+	}
+	switch s.kind {
+	case secCompressedZ, secCompressedL:
+		return "compressed{ " + kids() + "}"
+	case secGUIDPlain:
+		return "guided-unprocessed"
+	case secGUIDUnknown:
+		return "guided-undecodable"
+	case secVolumeImage:
+		return "volume-image{ " + s.fv.outline() + " }"
+	case secUI:
+		return "ui(" + s.name + ")"
+	case secPE32:
+		return "pe32"
+	}
+	return "raw"
+}
+
+func (f *sFile) outline() string {
+	if f.guid == padGUID {
+		return "pad"
+	}
+	o := fmt.Sprintf("file:%x", f.guid[:2])
+	if f.secs == nil {
+		return o + "(raw)"
+	}
+	o += "[ "
+	for _, s := range f.secs {
+		o += s.outline() + " "
+	}
+	return o + "]"
+}
+
+func (v *sFV) outline() string {
+	o := "FV:-"
+	if v.name != nil {
+		o = fmt.Sprintf("FV:%x", v.name[:2])
+	}
+	o += "{ "
+	for _, f := range v.files {
+		o += f.outline() + " "
+	}
+	return o + "}"
+}
+
+// synthImage returns a BIOS-region image (size a multiple of 4 KiB), a description and an
+// outline of its structure.
+func synthImage(rng *rand.Rand, idx int) ([]byte, string, string) {
 	g := &synthGen{rng: rng, budget: 40 + rng.Intn(60)}
 	for i := 0; i < 4+rng.Intn(3); i++ {
 		var x sGUID
@@ -361,7 +415,9 @@ func synthImage(rng *rand.Rand, idx int) ([]byte, string) {
 		}
 	}
 	var img []byte
+	outline := ""
 	for i, v := range fvs {
+		outline += v.outline() + " "
 		if i > 0 || rng.Intn(2) == 0 {
 			// padding between the volumes: erased flash or data that is no volume
 			c := byte(0xFF)
@@ -373,5 +429,5 @@ func synthImage(rng *rand.Rand, idx int) ([]byte, string) {
 		img = append(img, v.bytes()...)
 	}
 	img = align(img, 0x1000, 0xFF)
-	return img, descr
+	return img, descr, outline
 }
